@@ -249,9 +249,9 @@ theorem C12_started_frozen_step (v : Variant) (s : State) (op : Op) (hi : WlSInv
     · by_cases he : ∃ a t, op = .updateEnd a t
       · obtain ⟨a, t, rfl⟩ := he
         obtain ⟨⟨_, h2, h3⟩, rfl⟩ := (C12_update_end_iff v s s' a t).1 h
-        simp only []
-        refine ⟨rfl, by omega, h2, hst, ?_⟩
-        intro a p e; cases e
+        refine ⟨rfl, ?_, h2, hst, ?_⟩
+        · show t ≤ s.end_; omega
+        · intro a p e; cases e
       · have hf := C12_frame v s s' op h (fun a t e => hs ⟨a, t, e⟩) (fun a t e => he ⟨a, t, e⟩)
         refine ⟨hf.1, by omega, by omega, ?_, ?_⟩
         · by_cases hc : ∃ t, op = .setTime t
@@ -263,86 +263,29 @@ theorem C12_started_frozen_step (v : Variant) (s : State) (op : Op) (hi : WlSInv
           obtain ⟨⟨_, _, h3, _⟩, _⟩ := (C12_remove_iff v s s' a p).1 h
           omega
 
-theorem wl_timeMonotone_cons (n : Nat) (op : Op) (ops : List Op) (h : TimeMonotone n (op :: ops)) :
-    (∀ t, op = .setTime t → n ≤ t) ∧ ∀ v s, s.now = n → TimeMonotone (step' v s op).now ops := by
-  cases op with
-  | setTime t =>
-    simp only [TimeMonotone] at h
-    refine ⟨fun t' e => by cases e; exact h.1, fun v s _ => ?_⟩
-    simp only [step', step]; exact h.2
-  | updateStart a t =>
-    simp only [TimeMonotone] at h
-    refine ⟨fun t' e => by cases e, fun v s hn => ?_⟩
-    have : (step' v s (.updateStart a t)).now = s.now := by
-      unfold step'
-      cases hs : step v s (.updateStart a t) with
-      | error e => rfl
-      | ok s' => obtain ⟨_, rfl⟩ := (C12_update_start_iff v s s' a t).1 hs; rfl
-    rw [this, hn]; exact h
-  | updateEnd a t =>
-    simp only [TimeMonotone] at h
-    refine ⟨fun t' e => by cases e, fun v s hn => ?_⟩
-    have : (step' v s (.updateEnd a t)).now = s.now := by
-      unfold step'
-      cases hs : step v s (.updateEnd a t) with
-      | error e => rfl
-      | ok s' => obtain ⟨_, rfl⟩ := (C12_update_end_iff v s s' a t).1 hs; rfl
-    rw [this, hn]; exact h
-  | removeMembers a p =>
-    simp only [TimeMonotone] at h
-    refine ⟨fun t' e => by cases e, fun v s hn => ?_⟩
-    have : (step' v s (.removeMembers a p)).now = s.now := by
-      unfold step'
-      cases hs : step v s (.removeMembers a p) with
-      | error e => rfl
-      | ok s' =>
-        exact (C12_frame v s s' _ hs (fun _ _ e => by cases e) (fun _ _ e => by cases e)).2.2
-          (fun _ e => by cases e)
-    rw [this, hn]; exact h
-  | updatePerAddr a k =>
-    simp only [TimeMonotone] at h
-    refine ⟨fun t' e => by cases e, fun v s hn => ?_⟩
-    have : (step' v s (.updatePerAddr a k)).now = s.now := by
-      unfold step'
-      cases hs : step v s (.updatePerAddr a k) with
-      | error e => rfl
-      | ok s' =>
-        exact (C12_frame v s s' _ hs (fun _ _ e => by cases e) (fun _ _ e => by cases e)).2.2
-          (fun _ e => by cases e)
-    rw [this, hn]; exact h
-  | updateAdmins a l =>
-    simp only [TimeMonotone] at h
-    refine ⟨fun t' e => by cases e, fun v s hn => ?_⟩
-    have : (step' v s (.updateAdmins a l)).now = s.now := by
-      unfold step'
-      cases hs : step v s (.updateAdmins a l) with
-      | error e => rfl
-      | ok s' =>
-        exact (C12_frame v s s' _ hs (fun _ _ e => by cases e) (fun _ _ e => by cases e)).2.2
-          (fun _ e => by cases e)
-    rw [this, hn]; exact h
-  | freeze a =>
-    simp only [TimeMonotone] at h
-    refine ⟨fun t' e => by cases e, fun v s hn => ?_⟩
-    have : (step' v s (.freeze a)).now = s.now := by
-      unfold step'
-      cases hs : step v s (.freeze a) with
-      | error e => rfl
-      | ok s' =>
-        exact (C12_frame v s s' _ hs (fun _ _ e => by cases e) (fun _ _ e => by cases e)).2.2
-          (fun _ e => by cases e)
-    rw [this, hn]; exact h
-  | env ok =>
-    simp only [TimeMonotone] at h
-    refine ⟨fun t' e => by cases e, fun v s hn => ?_⟩
-    have : (step' v s (.env ok)).now = s.now := by
-      unfold step'
-      cases hs : step v s (.env ok) with
-      | error e => rfl
-      | ok s' =>
-        exact (C12_frame v s s' _ hs (fun _ _ e => by cases e) (fun _ _ e => by cases e)).2.2
-          (fun _ e => by cases e)
-    rw [this, hn]; exact h
+/-- only the chain moves the clock: after any message the block time is `opTime` -/
+theorem wl_step'_now (v : Variant) (s : State) (op : Op) : (step' v s op).now = opTime s.now op := by
+  unfold step'
+  cases h : step v s op with
+  | error e => cases op <;> simp_all [opTime, step]
+  | ok s' =>
+    simp only []
+    by_cases hs : ∃ a t, op = .updateStart a t
+    · obtain ⟨a, t, rfl⟩ := hs
+      obtain ⟨_, rfl⟩ := (C12_update_start_iff v s s' a t).1 h; rfl
+    · by_cases he : ∃ a t, op = .updateEnd a t
+      · obtain ⟨a, t, rfl⟩ := he
+        obtain ⟨_, rfl⟩ := (C12_update_end_iff v s s' a t).1 h; rfl
+      · have hf := C12_frame v s s' op h (fun a t e => hs ⟨a, t, e⟩) (fun a t e => he ⟨a, t, e⟩)
+        cases op with
+        | setTime t => simp [step] at h; subst h; rfl
+        | updateStart a t => exact absurd ⟨a, t, rfl⟩ hs
+        | updateEnd a t => exact absurd ⟨a, t, rfl⟩ he
+        | removeMembers a p => exact hf.2.2 (fun _ e => by cases e)
+        | updatePerAddr a n => exact hf.2.2 (fun _ e => by cases e)
+        | updateAdmins a l => exact hf.2.2 (fun _ e => by cases e)
+        | freeze a => exact hf.2.2 (fun _ e => by cases e)
+        | env ok => exact hf.2.2 (fun _ e => by cases e)
 
 /-- "Once a whitelist has started its start time cannot change, its end time can only be brought forward
 (never extended, never before the start)": from any well-formed state that has started, after **every**
@@ -355,10 +298,12 @@ theorem C12_started_frozen (v : Variant) (ops : List Op) (s : State) (hi : WlSIn
   induction ops generalizing s with
   | nil => exact ⟨rfl, Nat.le_refl _, hi.2, hst⟩
   | cons op ops ih =>
-    obtain ⟨hm1, hm2⟩ := wl_timeMonotone_cons s.now op ops hm
+    simp only [TimeMonotone] at hm
+    have hm1 : ∀ t, op = .setTime t → s.now ≤ t := by
+      intro t e; subst e; simpa [opTime] using hm.1
     obtain ⟨h1, h2, h3, h4, _⟩ := C12_started_frozen_step v s op hi hst hm1
     have hi' := C12_step'_wellformed v s op hi
-    obtain ⟨g1, g2, g3, g4⟩ := ih (step' v s op) hi' h4 (hm2 v s rfl)
+    obtain ⟨g1, g2, g3, g4⟩ := ih (step' v s op) hi' h4 (by rw [wl_step'_now]; exact hm.2)
     simp only [run, List.foldl_cons] at *
     exact ⟨by omega, by omega, by omega, g4⟩
 
@@ -384,22 +329,13 @@ theorem C12_no_start_update_after_start (v : Variant) (ops : List Op) (s : State
     unfold WlStarted at h4; omega
 
 theorem wl_timeMonotone_append (v : Variant) (pre post : List Op) (s : State)
-    (h : TimeMonotone s.now (pre ++ post)) : TimeMonotone s.now pre ∧ TimeMonotone (run v s pre).now post := by
+    (h : TimeMonotone s.now (pre ++ post)) : TimeMonotone (run v s pre).now post := by
   induction pre generalizing s with
-  | nil => exact ⟨trivial, h⟩
+  | nil => exact h
   | cons op pre ih =>
-    obtain ⟨h1, h2⟩ := wl_timeMonotone_cons s.now op (pre ++ post) h
-    obtain ⟨g1, g2⟩ := ih (step' v s op) (h2 v s rfl)
-    refine ⟨?_, by simpa [run] using g2⟩
-    cases op <;> first | exact g1 | skip
-    all_goals
-      first
-      | (simp only [TimeMonotone]; simp only [step', step] at g1; exact ⟨h1 _ rfl, g1⟩)
-      | (simp only [TimeMonotone]
-         have hn := (wl_timeMonotone_cons s.now _ pre (by
-              simp only [TimeMonotone]; exact (show TimeMonotone s.now pre from by
-                have := ih (step' v s _) (h2 v s rfl); exact this.1 ▸ this.1))).1
-         exact g1)
+    simp only [List.cons_append, TimeMonotone] at h
+    have := ih (step' v s op) (by rw [wl_step'_now]; exact h.2)
+    simpa [run] using this
 
 /-- the whole-history form: take **any** history after instantiate (clock never going backwards) and cut it
 anywhere; if the whitelist has started at the cut, then from there to the end of the history the start time is
@@ -413,7 +349,7 @@ theorem C12_started_frozen_history (v : Variant) (now : Nat) (funds : List Coin)
     fin.start = mid.start ∧ fin.end_ ≤ mid.end_ ∧ mid.start ≤ fin.end_ ∧ WlStarted fin ∧
     ∀ a p, (step v fin (.removeMembers a p)).isOk = false := by
   have hi := C12_wellformed_from v s0 (C12_instantiate_wellformed v now funds m s0 h).1 pre
-  have hm2 := (wl_timeMonotone_append v pre post s0 hm).2
+  have hm2 := wl_timeMonotone_append v pre post s0 hm
   have hrun : run v s0 (pre ++ post) = run v (run v s0 pre) post := by simp [run, List.foldl_append]
   simp only [hrun]
   obtain ⟨g1, g2, g3, g4⟩ := C12_started_frozen v post (run v s0 pre) hi hst hm2
@@ -472,9 +408,9 @@ def exMsg : InstMsg :=
 def exState : State :=
   { now := G + 5, start := G + 10, end_ := G + 20, perAddr := 1, admins := [10], adminsMutable := true }
 
-example : instantiate .plain (G + 5) [⟨NATIVE, 100000000⟩] exMsg = .ok exState := by decide
-example : instantiate .flex (G + 5) [⟨NATIVE, 100000000⟩] exMsg = .ok { exState with perAddr := 0 } := by decide
-example : instantiate .merkle (G + 5) [⟨NATIVE, 1000000000⟩] exMsg = .ok exState := by decide
+example : (instantiate .plain (G + 5) [⟨NATIVE, 100000000⟩] exMsg).toOption = some exState := by decide
+example : (instantiate .flex (G + 5) [⟨NATIVE, 100000000⟩] exMsg).toOption = some { exState with perAddr := 0 } := by decide
+example : (instantiate .merkle (G + 5) [⟨NATIVE, 1000000000⟩] exMsg).toOption = some exState := by decide
 -- start = now is not "in the future"; start = now + 1 is
 example : (instantiate .plain (G + 10) [⟨NATIVE, 100000000⟩] exMsg).isOk = false := by decide
 example : (instantiate .plain (G + 9) [⟨NATIVE, 100000000⟩] exMsg).isOk = true := by decide
